@@ -215,7 +215,19 @@ def check_crash(pid, tier, seed):
     log("%s: %d workloads -> %d jobs (+%d corpus)" % (pid, len(wl), len(jobs), len(corpus)))
     eng.crash_rounds(jobs, prof["depth"][ti], prof["per_run"][ti], prof["expand_next"][ti],
                      max_exh=(9 if ti == 0 else 11), nrandom=(32 if ti == 0 else 128), extra_final=corpus)
-    return verdict(eng, pid, "model_checking", RULE_CRASH)
+    extra = None
+    if pid == "C13":
+        import checks_conc
+        cst = {}
+        vs, nscen = checks_conc.c13_stage(seed, tier, cst)
+        for v in vs:
+            eng.viols.append({"line": 0, "clause": v["clause"], "job": v["scenario"], "fork": None, "family": "conc", "tag": None,
+                              "inflight": "none", "ncrash": 0, "event": v["event"], "props": ["C13"],
+                              "replay_job": {"conc_scenario": v.get("scenario_obj")}})
+        eng.traces += nscen
+        eng.evals += nscen
+        extra = {"concurrent_reader_scenarios": nscen, "concurrent_stage": cst}
+    return verdict(eng, pid, "model_checking", RULE_CRASH, extra_cov=extra)
 
 
 # ---------------------------------------------------------------------------
